@@ -378,7 +378,10 @@ func classifyAttributes(receiver *metadata.ReceiverMeta) (classifiedAttributes, 
 	for _, attr := range receiver.Annotations.Attributes() {
 		switch attr.Name {
 		case annotations.GleeceAnnotationRoute:
-			classified.route = attr
+			if !routeAttrSeen {
+				// The route is served and documented under its first @Route; a repeated one is reported elsewhere
+				classified.route = attr
+			}
 			routeAttrSeen = true
 		case annotations.GleeceAnnotationPath:
 			classified.path = append(classified.path, attr)
